@@ -112,6 +112,7 @@ def main(argv=None):
 
     # ---------------------------------------------------------------- classify
     n_ob = n_dis = 0
+    n_bounded_ob = 0
     by_backend = {}
     solver_s = 0.0
     violations = []
@@ -154,8 +155,13 @@ def main(argv=None):
             if not meta.get("bounded"):
                 undecided.append((uname, "a while-loop exceeded the unrolling bound on some path; nothing is claimed beyond it"))
         for o in r.obligations:
-            n_ob += 1
             full = "%s/%s" % (uname, o.name)
+            if meta.get("bounded") and o.status == "proved":
+                # a unit that declares a bound (e.g. strings of <= 6 bytes) is a bounded stand-in: its obligations are
+                # reported separately and never counted as discharged proof obligations
+                n_bounded_ob += 1
+                continue
+            n_ob += 1
             if o.status == "proved":
                 n_dis += 1
                 by_backend[o.backend] = by_backend.get(o.backend, 0) + 1
@@ -299,6 +305,7 @@ def main(argv=None):
         "engine_gaps": [u for u, _ in gaps][:50],
         "canaries_refuted": canaries_refuted,
         "bounded_units": bounded_units,
+        "bounded_unit_obligations_not_counted": n_bounded_ob,
         "bounded_adjudication": {"units": [u for _, u in adj_units], "native_evaluations": adj_evals,
                                  "note": "undecided obligations are searched natively (pseudo-random + boundary inputs); never counted as discharged"},
         "known_findings": sorted(printed_known),
